@@ -1,6 +1,7 @@
 """C03 — fragmentation and reassembly are exact and respect the size limit.
 Correspondence: real get_next_fragment loop (FrameFragmenter + new_frame_fragment), Frame.serialize, parse_or_ignore and
 FrameFragmentCache.append against model/Fragmenter.v; oracle = the clauses of the property on the implementation."""
+from harness import internals
 import time
 
 from harness import frames as FR
@@ -55,7 +56,7 @@ def impl_fragments(fr, size, lenreq):
             raised = type(e).__name__
             break
     reasm = FR.describe(out) if out is not None else None
-    return desc, sers, reasm, len(cache._frames_by_stream_id), raised
+    return desc, sers, reasm, len(internals.cache_dict(cache)), raised
 
 
 def oracle(fr, size, lenreq, desc, sers, reasm, cache_left, raised):
